@@ -13,7 +13,7 @@ EXTENDS C05
 
 \* ======================= family TS ===============================================================
 Sites == {"throwstmt", "throwerr", "nullmember", "undefmember", "callnonfn", "unknownid", "methundef", "masgnull",
-          "cbthrow", "mapthrow", "nestednative", "cbruntime"}
+          "cbthrow", "mapthrow", "nestednative", "cbruntime", "getter", "setter", "getterrt", "sortcmp"}
 \* body of the function f that contains the throw site (node 1 is the faulting node)
 ThrowingCb(x) == Fun("", <<"x">>, <<SLog(Var("x"))>> \o x)
 SiteBody(st) ==
@@ -31,6 +31,13 @@ SiteBody(st) ==
                                           <<ThrowingCb(<<SIf(Bin("==", Var("x"), I(2)), SBlock(<<SThrowAt(1, New(Var("Error"), <<EStr("m")>>))>>), NoS), SRet(Var("x"))>>)>>), "length"))>>
     [] st = "nestednative" -> <<SExpr(Call(Dot(Arr(<<I(1), I(2)>>), "forEach"),
                                            <<ThrowingCb(<<SExpr(Call(Dot(Arr(<<I(5), I(6)>>), "map"), <<ThrowingCb(<<SThrowAt(1, Plus(Var("x"), I(10)))>>)>>))>>)>>)), SRet(I(1))>>
+    [] st = "getter" -> <<SVar1("u", ObjK(<<"a", "p">>, <<"init", "get">>, <<I(1), Fun("", <<>>, <<SLog(EStr("get")), SThrowAt(1, I(4))>>)>>)), SLog(EStr("s")),
+                          SRet(Plus(I(1), Dot(Var("u"), "p")))>>
+    [] st = "setter" -> <<SVar1("u", ObjK(<<"p", "a">>, <<"set", "init">>, <<Fun("", <<"v">>, <<SLog(Var("v")), SThrowAt(1, New(Var("TypeError"), <<EStr("ro")>>))>>), I(1)>>)),
+                          SLog(EStr("s")), SExpr(MAsg(Dot(Var("u"), "p"), I(3))), SRet(I(1))>>
+    [] st = "getterrt" -> <<SVar(<<Decl("n", ENull), Decl("u", ObjK(<<"p">>, <<"get">>, <<Fun("", <<>>, <<SLog(EStr("get")), SRet(DotAt(1, Var("n"), "x"))>>)>>))>>),
+                            SRet(Mem(Var("u"), EStr("p")))>>
+    [] st = "sortcmp" -> <<SLog(EStr("s")), SExpr(Call(Dot(Arr(<<I(3), I(1), I(2)>>), "sort"), <<Fun("", <<"a", "b">>, <<SLog(EStr("cmp")), SThrowAt(1, EStr("no order"))>>)>>)), SRet(I(1))>>
     [] st = "cbruntime" -> <<SVar1("u", NoE), SExpr(Call(Dot(Arr(<<I(1), I(2)>>), "forEach"), <<ThrowingCb(<<SExpr(CallAt(1, Var("u"), <<>>))>>)>>)), SRet(I(1))>>
 \* try statements between the site and the handler (inside f)
 Mids == {"none", "finally", "rethrow", "thrownew", "catchfinally", "finally2", "swallow"}
@@ -66,7 +73,7 @@ TSAll == [st : Sites, md : Mids, h : Handlers, pl : {"stmt", "left", "right", "a
 TSQuickSel(c) ==
   \/ (c.pl = "stmt" /\ c.md \in {"none", "finally", "rethrow", "catchfinally"})
   \/ (c.pl \in {"left", "arg"} /\ c.md \in {"none", "thrownew", "swallow"} /\ c.h \in {"same", "caller", "native"})
-  \/ (c.st \in {"throwstmt", "nullmember", "cbthrow"} /\ c.md = "none" /\ c.h \in {"same", "native"})
+  \/ (c.st \in {"throwstmt", "nullmember", "cbthrow", "getter", "sortcmp"} /\ c.md = "none" /\ c.h \in {"same", "native"})
   \/ (c.st = "throwstmt" /\ c.pl \in {"right", "cond"})
 TSCases == {c \in TSAll : ~Quick \/ TSQuickSel(c)}
 
